@@ -1,6 +1,7 @@
 import ParryModel.Field
 import ParryModel.C09.Model
 import ParryModel.C09.Theorems2
+import ParryModel.C09.Theorems3
 /-!
 # C09 property theorems: interval enclosures and box algebra, for every linearly ordered field.
 Statements only quantify over the model functions of `C09/Model.lean`, instantiated at the lawful
